@@ -462,9 +462,18 @@ func checkVectors(viol func(string, ...interface{})) int {
 // dispatch: every procedure number must reach the handler of that procedure
 
 type recHandler struct {
-	mu   sync.Mutex
-	last string
-	fh   []byte
+	mu    sync.Mutex
+	last  string
+	fh    []byte
+	arg   interface{} // the whole argument value the handler was called with
+	conc  bool        // concurrent mode: WRITE arguments carry one byte value in handle and data
+	mixed int
+}
+
+func (h *recHandler) setArg(a interface{}) {
+	h.mu.Lock()
+	h.arg = a
+	h.mu.Unlock()
 }
 
 func (h *recHandler) rec(name string, fh []byte) {
@@ -478,91 +487,126 @@ func (h *recHandler) rec(name string, fh []byte) {
 }
 func (h *recHandler) NFSPROC3_NULL() { h.rec("NFSPROC3_NULL", nil) }
 func (h *recHandler) NFSPROC3_GETATTR(a nt.GETATTR3args) (r nt.GETATTR3res) {
+	h.setArg(a)
 	h.rec("NFSPROC3_GETATTR", a.Object.Data)
 	return
 }
 func (h *recHandler) NFSPROC3_SETATTR(a nt.SETATTR3args) (r nt.SETATTR3res) {
+	h.setArg(a)
 	h.rec("NFSPROC3_SETATTR", a.Object.Data)
 	return
 }
 func (h *recHandler) NFSPROC3_LOOKUP(a nt.LOOKUP3args) (r nt.LOOKUP3res) {
+	h.setArg(a)
 	h.rec("NFSPROC3_LOOKUP", a.What.Dir.Data)
 	return
 }
 func (h *recHandler) NFSPROC3_ACCESS(a nt.ACCESS3args) (r nt.ACCESS3res) {
+	h.setArg(a)
 	h.rec("NFSPROC3_ACCESS", a.Object.Data)
 	return
 }
 func (h *recHandler) NFSPROC3_READLINK(a nt.READLINK3args) (r nt.READLINK3res) {
+	h.setArg(a)
 	h.rec("NFSPROC3_READLINK", a.Symlink.Data)
 	return
 }
 func (h *recHandler) NFSPROC3_READ(a nt.READ3args) (r nt.READ3res) {
+	h.setArg(a)
 	h.rec("NFSPROC3_READ", a.File.Data)
 	return
 }
 func (h *recHandler) NFSPROC3_WRITE(a nt.WRITE3args) (r nt.WRITE3res) {
+	h.setArg(a)
+	if h.conc && len(a.File.Data) > 0 && len(a.Data) > 0 {
+		bad := false
+		for _, x := range a.Data {
+			if x != a.File.Data[0] {
+				bad = true
+			}
+		}
+		if bad || uint32(a.Count) != uint32(a.File.Data[0]) {
+			h.mu.Lock()
+			h.mixed++
+			h.mu.Unlock()
+		}
+	}
 	h.rec("NFSPROC3_WRITE", a.File.Data)
 	return
 }
 func (h *recHandler) NFSPROC3_CREATE(a nt.CREATE3args) (r nt.CREATE3res) {
+	h.setArg(a)
 	h.rec("NFSPROC3_CREATE", a.Where.Dir.Data)
 	return
 }
 func (h *recHandler) NFSPROC3_MKDIR(a nt.MKDIR3args) (r nt.MKDIR3res) {
+	h.setArg(a)
 	h.rec("NFSPROC3_MKDIR", a.Where.Dir.Data)
 	return
 }
 func (h *recHandler) NFSPROC3_SYMLINK(a nt.SYMLINK3args) (r nt.SYMLINK3res) {
+	h.setArg(a)
 	h.rec("NFSPROC3_SYMLINK", a.Where.Dir.Data)
 	return
 }
 func (h *recHandler) NFSPROC3_MKNOD(a nt.MKNOD3args) (r nt.MKNOD3res) {
+	h.setArg(a)
 	h.rec("NFSPROC3_MKNOD", a.Where.Dir.Data)
 	return
 }
 func (h *recHandler) NFSPROC3_REMOVE(a nt.REMOVE3args) (r nt.REMOVE3res) {
+	h.setArg(a)
 	h.rec("NFSPROC3_REMOVE", a.Object.Dir.Data)
 	return
 }
 func (h *recHandler) NFSPROC3_RMDIR(a nt.RMDIR3args) (r nt.RMDIR3res) {
+	h.setArg(a)
 	h.rec("NFSPROC3_RMDIR", a.Object.Dir.Data)
 	return
 }
 func (h *recHandler) NFSPROC3_RENAME(a nt.RENAME3args) (r nt.RENAME3res) {
+	h.setArg(a)
 	h.rec("NFSPROC3_RENAME", a.From.Dir.Data)
 	return
 }
 func (h *recHandler) NFSPROC3_LINK(a nt.LINK3args) (r nt.LINK3res) {
+	h.setArg(a)
 	h.rec("NFSPROC3_LINK", a.File.Data)
 	return
 }
 func (h *recHandler) NFSPROC3_READDIR(a nt.READDIR3args) (r nt.READDIR3res) {
+	h.setArg(a)
 	h.rec("NFSPROC3_READDIR", a.Dir.Data)
 	return
 }
 func (h *recHandler) NFSPROC3_READDIRPLUS(a nt.READDIRPLUS3args) (r nt.READDIRPLUS3res) {
+	h.setArg(a)
 	h.rec("NFSPROC3_READDIRPLUS", a.Dir.Data)
 	return
 }
 func (h *recHandler) NFSPROC3_FSSTAT(a nt.FSSTAT3args) (r nt.FSSTAT3res) {
+	h.setArg(a)
 	h.rec("NFSPROC3_FSSTAT", a.Fsroot.Data)
 	return
 }
 func (h *recHandler) NFSPROC3_FSINFO(a nt.FSINFO3args) (r nt.FSINFO3res) {
+	h.setArg(a)
 	h.rec("NFSPROC3_FSINFO", a.Fsroot.Data)
 	return
 }
 func (h *recHandler) NFSPROC3_PATHCONF(a nt.PATHCONF3args) (r nt.PATHCONF3res) {
+	h.setArg(a)
 	h.rec("NFSPROC3_PATHCONF", a.Object.Data)
 	return
 }
 func (h *recHandler) NFSPROC3_COMMIT(a nt.COMMIT3args) (r nt.COMMIT3res) {
+	h.setArg(a)
 	h.rec("NFSPROC3_COMMIT", a.File.Data)
 	return
 }
 func (h *recHandler) MOUNTPROC3_NULL() { h.rec("MOUNTPROC3_NULL", nil) }
 func (h *recHandler) MOUNTPROC3_MNT(a nt.Dirpath3) (r nt.Mountres3) {
+	h.setArg(a)
 	h.rec("MOUNTPROC3_MNT", []byte(a))
 	return
 }
@@ -723,5 +767,88 @@ func checkDispatch(viol func(string, ...interface{})) int {
 	}
 	wrap(nt.NFS_PROGRAM_NFS_V3_regs(h), nfsProcs)
 	wrap(nt.MOUNT_PROGRAM_MOUNT_V3_regs(h), mountProcs)
+	// sequences of different argument values for one procedure: the handler
+	// must be called with exactly the decoding of *this* message - nothing of an
+	// earlier call (other union arm, optional field, longer list) may show
+	ntArg := map[uint32]func() xdr.Xdrable{
+		1: func() xdr.Xdrable { return new(nt.GETATTR3args) }, 2: func() xdr.Xdrable { return new(nt.SETATTR3args) }, 3: func() xdr.Xdrable { return new(nt.LOOKUP3args) },
+		4: func() xdr.Xdrable { return new(nt.ACCESS3args) }, 5: func() xdr.Xdrable { return new(nt.READLINK3args) }, 6: func() xdr.Xdrable { return new(nt.READ3args) },
+		7: func() xdr.Xdrable { return new(nt.WRITE3args) }, 8: func() xdr.Xdrable { return new(nt.CREATE3args) }, 9: func() xdr.Xdrable { return new(nt.MKDIR3args) },
+		10: func() xdr.Xdrable { return new(nt.SYMLINK3args) }, 11: func() xdr.Xdrable { return new(nt.MKNOD3args) }, 12: func() xdr.Xdrable { return new(nt.REMOVE3args) },
+		13: func() xdr.Xdrable { return new(nt.RMDIR3args) }, 14: func() xdr.Xdrable { return new(nt.RENAME3args) }, 15: func() xdr.Xdrable { return new(nt.LINK3args) },
+		16: func() xdr.Xdrable { return new(nt.READDIR3args) }, 17: func() xdr.Xdrable { return new(nt.READDIRPLUS3args) }, 18: func() xdr.Xdrable { return new(nt.FSSTAT3args) },
+		19: func() xdr.Xdrable { return new(nt.FSINFO3args) }, 20: func() xdr.Xdrable { return new(nt.PATHCONF3args) }, 21: func() xdr.Xdrable { return new(nt.COMMIT3args) },
+	}
+	rng := NewRng(0x5eed16)
+	for _, reg := range nt.NFS_PROGRAM_NFS_V3_regs(h) {
+		mk := ntArg[reg.Proc]
+		if mk == nil {
+			continue
+		}
+		for k := 0; k < 12; k++ {
+			v := mk()
+			fillRandom(reflect.ValueOf(v).Elem(), rng, 0)
+			b, err := encodeSafe(v)
+			if err != nil {
+				continue
+			}
+			fresh := mk()
+			if _, err := decodeSafe(b, fresh); err != nil {
+				continue
+			}
+			h.setArg(nil)
+			var herr error
+			func() {
+				defer func() {
+					if e := recover(); e != nil {
+						herr = fmt.Errorf("panic: %v", e)
+					}
+				}()
+				_, herr = reg.Handler(xdr.MakeReader(append([]byte{}, b...)))
+			}()
+			n++
+			h.mu.Lock()
+			got := h.arg
+			h.mu.Unlock()
+			if herr != nil {
+				viol("procedure %d: well-formed arguments (%d bytes) are refused by the registered wrapper: %v", reg.Proc, len(b), herr)
+				break
+			}
+			want := reflect.ValueOf(fresh).Elem().Interface()
+			if got == nil || !reflect.DeepEqual(got, want) {
+				viol("procedure %d, call #%d of a sequence: the handler was called with %+v, the message decodes to %+v (state of an earlier call shows through)", reg.Proc, k+1, got, want)
+				break
+			}
+		}
+	}
+	// the same procedure decoded by several connections at once: every call
+	// must get its own argument
+	hc := &recHandler{conc: true}
+	for _, reg := range nt.NFS_PROGRAM_NFS_V3_regs(hc) {
+		if reg.Proc != 7 {
+			continue
+		}
+		var wg sync.WaitGroup
+		for g := 1; g <= 4; g++ {
+			wg.Add(1)
+			go func(g int, handler func(*xdr.XdrState) (xdr.Xdrable, error)) {
+				defer wg.Done()
+				defer func() { recover() }()
+				a := &nt.WRITE3args{File: nt.Nfs_fh3{Data: bytes.Repeat([]byte{byte(g)}, 16)}, Count: nt.Count3(g), Data: bytes.Repeat([]byte{byte(g)}, 3000)}
+				b, err := encodeSafe(a)
+				if err != nil {
+					return
+				}
+				for i := 0; i < 400; i++ {
+					handler(xdr.MakeReader(append([]byte{}, b...)))
+				}
+			}(g, reg.Handler)
+		}
+		wg.Wait()
+		n += 1600
+		if hc.mixed > 0 {
+			viol("WRITE decoded by four connections at once: %d of 1600 calls reached the handler with an argument mixed from two requests (handle of one, data/count of another)", hc.mixed)
+		}
+	}
 	return n
 }
